@@ -31,6 +31,8 @@ def run_cli(M, path, src):
     """run seed's `main` with argv = [seed, path] and the file content `src` (bytes, or a list of Int bytes).
     returns (exit code, stdout elements, stderr elements) -- see models.pieces / conc; raises Panic / Unsupported / PathEnd"""
     OUT['stdout'] = []; OUT['stderr'] = []
+    from . import itermodels as _im
+    _im._SW['n'] = 0
     ENV['args'] = ['seed', path]; ENV['files'] = {path: src}
     M.step_limit = M.steps + STEP_BUDGET
     code = 0
